@@ -524,7 +524,10 @@ def _refine_model(formulas, concl, cand, names, F):
         extra.append(("atom", alg.v_sub(alg.Value({C.mono([(sy, alg.QU)]): 1}), alg.Value.const(q)), "=="))
     if not extra:
         return None
-    r, model, _dt = _solve(list(formulas) + [Not(concl)] + extra, want_model=True)
+    try:
+        r, model, _dt = _solve(list(formulas) + [Not(concl)] + extra, want_model=True)
+    except Undecided:
+        return None  # e.g. a complex-valued conclusion: nothing the real-arithmetic solver can refine
     if r != "sat" or not model:
         return None
     out = dict(cand)
